@@ -339,6 +339,13 @@ pub fn run(tier: Tier) -> i32 {
             ("truncated", b"{\"k\": \"v".to_vec()),
             ("trailing-comma", b"{\"k\": \"v\",}".to_vec()),
             ("duplicate-keys", b"{\"k\": \"v\", \"k\": \"w\", \"k\": {\"a\": \"b\"}}".to_vec()),
+            // a key written twice: what the first occurrence registered (references, plural forms) is gone with it
+            ("duplicate-key-subkeys-with-fk-then-string", b"{\"a\": {\"sub\": \"$t(b)\"}, \"a\": \"text\", \"b\": \"x\"}".to_vec()),
+            ("duplicate-key-string-then-subkeys-with-fk", b"{\"a\": \"text\", \"a\": {\"sub\": \"$t(b)\"}, \"b\": \"x\"}".to_vec()),
+            ("duplicate-key-fk-then-string", b"{\"a\": \"$t(b)\", \"a\": \"text\", \"b\": \"x\"}".to_vec()),
+            ("duplicate-key-fk-in-range-then-null", b"{\"a\": [[\"$t(b)\", 0], [\"y\"]], \"a\": null, \"b\": \"x\"}".to_vec()),
+            ("duplicate-plural-form-with-fk", b"{\"p_one\": \"$t(b)\", \"p_one\": \"one\", \"p_other\": \"o\", \"b\": \"x\"}".to_vec()),
+            ("duplicate-nested-group-with-fk", b"{\"g\": {\"h\": {\"k\": \"$t(b)\"}}, \"g\": {\"h\": 1}, \"b\": \"x\"}".to_vec()),
             ("invalid-utf8", b"{\"k\": \"\xff\xfe\"}".to_vec()),
             ("invalid-utf8-key", b"{\"\xc3\x28\": \"v\"}".to_vec()),
             ("lone-surrogate-escape", b"{\"k\": \"\\ud800\"}".to_vec()),
@@ -435,7 +442,7 @@ pub fn run(tier: Tier) -> i32 {
     rep.sample(json!({"file_value": "[\"f32\", [\"x{{count}}\", \"NaN..=inf\"], [\"y\"]]"}));
     rep.sample(json!({"file_value": "\"pre $t(a, {\\\"x\\\": \\\"$t(k)\\\"}) post\""}));
     let mut cov = serde_json::Map::new();
-    cov.insert("rule".into(), json!(format!("(1) every string of <= {} tokens over {:?} through ParsedValue::new (+reduce when no foreign key is left); (2) every such string of <= {} tokens as a value in a real file through parse_locales (project also holds a, b=$t(a), count, p_one/p_other so references can resolve); (2b) the foreign-key forms of (5) and the short token strings again in 9 positions (plural `_one` / `_other` / a middle form, ordinal `_other`, range branch and fallback, nested subkey, a non-default locale, an argument of a foreign key), each in a project without namespaces and in one with two namespaces (references as written and addressed as `one:<key>`); (3) every range count of <= {} tokens over 13 spec tokens for i8,u8,f32,u64 and every JSON number class as count and as literal foreign-key count; (4) all small JSON values of depth <= {} in value position; (5) 13 targets x 13 argument texts x 4 positions of $t; (6) 20 whole-file contents and 7 missing/garbled project pieces; (7) nesting / length 1..2000 of 12 constructs and foreign-key chains, each in a subprocess on an 8 MiB stack; oracle: Ok or Err with non-empty message, no panic, no crash, every case within 20 s (deep: 60 s)", tier.pick(5, 6), TOKENS, tier.pick(3, 4), tier.pick(3, 4), tier.pick(2, 3))));
+    cov.insert("rule".into(), json!(format!("(1) every string of <= {} tokens over {:?} through ParsedValue::new (+reduce when no foreign key is left); (2) every such string of <= {} tokens as a value in a real file through parse_locales (project also holds a, b=$t(a), count, p_one/p_other so references can resolve); (2b) the foreign-key forms of (5) and the short token strings again in 9 positions (plural `_one` / `_other` / a middle form, ordinal `_other`, range branch and fallback, nested subkey, a non-default locale, an argument of a foreign key), each in a project without namespaces and in one with two namespaces (references as written and addressed as `one:<key>`); (2c) one string per character-class edge (C0 / DEL / C1 controls, separators, marks, BMP and astral edges) alone, doubled, inside text, before a quote, after a backslash; (3) every range count of <= {} tokens over 13 spec tokens for i8,u8,f32,u64 and every JSON number class as count and as literal foreign-key count; (4) all small JSON values of depth <= {} in value position; (5) 13 targets x 13 argument texts x 4 positions of $t; (6) 26 whole-file contents (incl. keys written twice whose first value held references) and 7 missing/garbled project pieces; (7) nesting / length 1..2000 of 12 constructs and foreign-key chains, each in a subprocess on an 8 MiB stack; oracle: Ok or Err with non-empty message, no panic, no crash, every case within 20 s (deep: 60 s)", tier.pick(5, 6), TOKENS, tier.pick(3, 4), tier.pick(3, 4), tier.pick(2, 3))));
     cov.insert("exhaustive".into(), json!(true));
     cov.insert("outcome_classes".into(), json!(*classes.lock().unwrap()));
     cov.insert("front_end".into(), json!(build_format().name()));
